@@ -603,6 +603,11 @@ impl Engine for WatchEngine {
                     // the plain path (own join, from the statement) and the spelled path with detours
                     let own = ent(dir, &id, &ext);
                     let plain = own_path_of(&lv.roots[ri], &own);
+                    // a FILE notification must not turn another watched root (or an ancestor of one) into a file: roots are directories
+                    if !dir {
+                        let tl = lexical(&plain);
+                        if lv.roots.iter().any(|r| { let rl = lexical(r); rl.len() >= tl.len() && rl[..tl.len()] == tl[..] }) { rec.stat("skipped/file-notification-on-a-root-path"); continue; }
+                    }
                     ensure_dirs(&base, &lv.roots[ri]);
                     if let Some(par) = plain.parent() { if !id.is_empty() { ensure_dirs(&lv.roots[ri], par); } }
                     let mut spelled = lv.roots[ri].clone();
